@@ -18,6 +18,15 @@ VARS = ["PATH", "MANPATH", "LD_LIBRARY_PATH", "FOO"]
 
 # ------------------------------------------------------------------ generators
 
+REF_PIECES = ["${OTHER}", "${HOME}", "${UNDEF}", "$?{OTHER}", "$?{UNDEF}", "${UNDEF-/dflt}", "${OTHER-/dflt}",
+              "$?{UNDEF-/d2}", "/lit", "/x y", "+", "${UNDEF2}", "$?{UNDEF2}"]
+
+
+def gen_ref_value(rng):
+    """a value made of 1-3 pieces, references to defined / undefined / guarded / defaulted variables among them"""
+    return "".join(rng.choice(REF_PIECES) for _ in range(rng.choice([1, 2, 2, 3])))
+
+
 def gen_old(rng, d, pool):
     if rng.random() < 0.12:
         return None                     # variable not set
@@ -54,7 +63,7 @@ def gen_prepend(rng):
         form = rng.choice(["${OTHER}/bin", "${UNDEF}/bin", "$?{UNDEF}/bin", "$?{OTHER}/lib",
                            "${UNDEF-/dflt}/x", "${OTHER-/dflt}/x", "$?{UNDEF-/d2}", "${UNDEF-}",
                            "$OTHER/x", "${OTHER", "$?x{OTHER}", "${HOME}/${OTHER}/z"])
-        v = form
+        v = form if rng.random() < 0.4 else gen_ref_value(rng)
         shape = "dollar"
     else:
         v = rng.choice(["", d, d + d])
@@ -81,7 +90,7 @@ def gen_set(rng):
     env = {"HOME": "/root", "OTHER": "/o/ther"}
     if rng.random() < 0.5:
         env[var] = rng.choice(["preexisting", "", "/a:/b"])
-    v = rng.choice(["plain", "/opt/p 1", "${OTHER}/bin", "${UNDEF}/bin", "$?{UNDEF}/bin", "${UNDEF-dflt}",
+    v = gen_ref_value(rng) if rng.random() < 0.5 else rng.choice(["plain", "/opt/p 1", "${OTHER}/bin", "${UNDEF}/bin", "$?{UNDEF}/bin", "${UNDEF-dflt}",
                     "a${HOME}b${OTHER}c", "", "${OTHER", "x${}y", "$?{OTHER}", "${HOME}${UNDEF2}"])
     return {"op": "set", "fwd": rng.random() < 0.65, "var": var, "value": v, "env": env, "shape": "set"}
 
@@ -249,11 +258,16 @@ def oracle(c, res):
         if others != {k: x for k, x in env.items() if k != c["var"]}:
             return ("frame", None, "another variable changed")
         if not wf_elem(d, core):
-            # guarded, undefined: nothing happens
-            m = re.fullmatch(r"\$\?\{([^-}]*)\}[^$]*", core)
-            if c["fwd"] and m and m.group(1) not in env and new != env:
-                return ("guard", env, "action guarded by an undefined variable changed the environment")
-            return None
+            if not c["fwd"] or "$" not in core:
+                return None
+            x = spec_expand3(env, core)
+            if x[0] == "skip":
+                if new != env:
+                    return ("guard", env, "action guarded by an undefined variable changed the environment")
+                return None
+            if x[0] == "raise" or not wf_elem(d, x[1]):
+                return None
+            core = x[1]                 # the element that must have been added
         got = elems(d, new.get(c["var"], ""))
         uo = uniq(elems(d, old))
         rest = [x for x in uo if x != core]
@@ -287,14 +301,14 @@ def oracle(c, res):
             if c["var"] in new:
                 return ("envset-reverse", None, "envSet in unsetup mode left the variable set")
             return None
-        if re.search(r"\$\?\{", v) or re.search(r"\$\{[^}]*-", v) or v == "":
-            m = re.fullmatch(r"\$\?\{([^-}]*)\}[^$]*", v)
-            if m and m.group(1) not in env and new != env:
-                return ("guard", env, "envSet guarded by an undefined variable changed the environment")
+        x = spec_expand3(env, v)
+        if x[0] == "skip" or (x[0] == "ok" and x[1] == ""):
+            if new != env:
+                return ("guard", env, "envSet of a skipped/empty value changed the environment")
             return None
-        if re.search(r"\$\{([^}]*)\}", v) and any(k not in env for k in re.findall(r"\$\{([^}]*)\}", v)):
-            return None                 # undefined unguarded reference: eups raises (checked by the model)
-        exp = spec_interp(env, v)
+        if x[0] == "raise":
+            return None                 # undefined unguarded reference: eups raises (compared with the model)
+        exp = spec_interp(env, x[1])
         if new.get(c["var"]) != exp:
             return ("envset-exact", exp, "envSet gave %r" % new.get(c["var"]))
         return None
@@ -321,6 +335,26 @@ def oracle(c, res):
                         ([b[3] for b in same_var], var, got, uniq(old)))
         return None
     return None
+
+
+def spec_expand3(env, v):
+    """("ok", text) | ("skip",) | ("raise",): references left to right, each by its own variable, else its
+    default; the first one with neither decides - guarded ($?{..}) skips the line, unguarded is an error"""
+    out = []
+    pos = 0
+    for m in re.finditer(r"\$(\?)?\{([^-}]*)(?:-([^}]+))?\}", v):
+        out.append(v[pos:m.start()])
+        pos = m.end()
+        if m.group(2) in env:
+            out.append(env[m.group(2)])
+        elif m.group(3):
+            out.append(m.group(3))
+        elif m.group(1):
+            return ("skip",)
+        else:
+            return ("raise",)
+    out.append(v[pos:])
+    return ("ok", "".join(out))
 
 
 def spec_expand(env, v):
